@@ -1335,10 +1335,10 @@ _bucket_setstate(Bucket *self, PyObject *state)
 
         COPY_KEY_FROM_ARG(self->keys[i], k, copied);
         if (!copied)
-            return -1;
+            goto unwind;
         COPY_VALUE_FROM_ARG(self->values[i], v, copied);
         if (!copied)
-            return -1;
+            goto unwind;
         INCREF_KEY(self->keys[i]);
         INCREF_VALUE(self->values[i]);
     }
@@ -1351,6 +1351,16 @@ _bucket_setstate(Bucket *self, PyObject *state)
     }
 
     return 0;
+
+unwind:
+    /* item i could not be converted:  release the i items already taken
+     * (self->len is still 0, so nobody else would).
+     */
+    while (--i >= 0) {
+        DECREF_KEY(self->keys[i]);
+        DECREF_VALUE(self->values[i]);
+    }
+    return -1;
 }
 
 static PyObject *
